@@ -11,6 +11,9 @@
      "the tree returned by auto_head_tail is equal to the input"      C13_equal_to_input
      "only inserts a single space where a head or tail is empty ..., never alters a non-empty head or
       tail" (and nothing else changes)                                C13_only_fills_empty
+     "... AND a separator is needed": WHICH empty slots get the blank — exactly those the rule designates (between
+      the operands and the operator of an operation, between the operands of an implicit operation, after NOT,
+      around TO), no other empty slot, no guard                       C13_fills_where_needed
      "is idempotent"                                                  C13_idempotent
      "leaves its argument untouched"        mutation is outside a value model (the model builds new
                                             values by construction); checked on the implementation by
@@ -27,7 +30,7 @@
                                              the lexer and LR-driver models with the generated tables
                                              (proofs/AutoHeadTailRoundtrip.v) *)
 Require Import Base Decimal Tree GenTree GenVisitors GenParser Visitor Eq Traverse Print Lexer Actions LR Parser.
-Require Import AutoHeadTail TreeInd TraverseProofs AutoHeadTailProofs AutoHeadTailRoundtrip.
+Require Import AutoHeadTail TreeInd TraverseProofs AutoHeadTailProofs AutoHeadTailRoundtrip AhtSlotProofs.
 
 (* ---------------------------------------------------------------- tie obligations on generated data *)
 Lemma aht_methods_known_ok : aht_methods_known = true.
@@ -57,6 +60,29 @@ Definition C13_equal_to_input_statement : Prop :=
    "" to " " (so a non-empty one is never altered); the result carries no name *)
 Definition C13_only_fills_empty_statement : Prop :=
   forall t t', well_formed t -> aht t = Some t' -> fills t t'.
+
+(* WHERE the blanks go ("where a head or tail is empty AND a separator is needed").  The rule, on the tree's
+   constructors (proofs/AhtSlotProofs.v head_needed_in / tail_needed_in, for child number i of a node p):
+     p an AND / OR / Bool operation   head: every operand but the first; tail: every operand but the last
+                                      (a single operand: both)          -- the operator stands between operands
+     p an implicit operation          tail: every operand but the last; no head
+     p a NOT                          head of the operand                -- after the word NOT
+     p a range                        tail of the low bound, head of the high bound   -- around the word TO
+     anything else                    nothing: not the root, not inside the parentheses of a group, not after
+                                      `field:`, not before `~` / `^`, not after `+` `-` `<` `>`, not next to the
+                                      brackets of a range
+   `designated f t q`: q is child number i of a node p of t with f p i.  Every position of the input is a
+   position of the result and there: a designated head (tail) that was empty is one blank, a designated non-empty
+   one is unchanged (`slot_after true`), and a head (tail) that is NOT designated is unchanged, empty or not.
+   No guard: heads and tails do not depend on the constructor invariant. *)
+Definition C13_fills_where_needed_statement : Prop :=
+  forall t t', aht t = Some t' ->
+    forall q n, subtree_at t q = Some n ->
+      exists n', subtree_at t' q = Some n' /\
+        (designated head_needed_in t q -> head_of n' = slot_after true (head_of n)) /\
+        (~ designated head_needed_in t q -> head_of n' = head_of n) /\
+        (designated tail_needed_in t q -> tail_of n' = slot_after true (tail_of n)) /\
+        (~ designated tail_needed_in t q -> tail_of n' = tail_of n).
 
 (* a second application returns its argument, exactly (names included: the result has none) *)
 Definition C13_idempotent_statement : Prop :=
@@ -98,6 +124,9 @@ Proof. intros t t' Hg H. apply aht_some in H. destruct H as [_ H]. subst. apply 
 
 Theorem C13_only_fills_empty : C13_only_fills_empty_statement.
 Proof. intros t t' Hg H. apply aht_some in H. destruct H as [_ H]. subst. apply daht_fills. exact Hg. Qed.
+
+Theorem C13_fills_where_needed : C13_fills_where_needed_statement.
+Proof. intros t t' H. apply aht_some in H. destruct H as [_ H]. subst. exact (daht_slots t). Qed.
 
 Theorem C13_idempotent : C13_idempotent_statement.
 Proof. exact aht_idempotent. Qed.
@@ -221,7 +250,41 @@ Example C13_equal_needs_constructor_invariant :
   exists t t', aht t = Some t' /\ item_eqb t' t = false.
 Proof. exists (Fuzzy meta0 (W [97]%N) (mkDec false 2 0) true). eexists. split; [vm_compute; reflexivity|]. vm_compute. reflexivity. Qed.
 
+(* ... and so is the guard of C13_only_fills_empty (`fills` also says that no attribute changes): same value *)
+Example C13_only_fills_needs_constructor_invariant :
+  exists t t', aht t = Some t' /\ ~ fills t t'.
+Proof.
+  exists (Fuzzy meta0 (W [97]%N) (mkDec false 2 0) true). eexists. split; [vm_compute; reflexivity|].
+  intros H. inversion H.
+Qed.
+
+(* where the blanks go, on a tree using every construct: only between operands and operators, after NOT and
+   around TO — none after `f:`, inside `( )`, before `~2` / `^3`, after `-` `>=` `+`, next to `[` `}`:
+   f:(a OR "b c") AND NOT x~2 AND [1 TO -2} AND >=y^3 AND +(p q) *)
+Definition ex_slots : item :=
+  Op KAnd meta0
+    [SearchField meta0 [102]%N (Grp KFieldGroup meta0 (Op KOr meta0 [W [97]%N; Term KPhrase meta0 [34;98;32;99;34]%N]));
+     Unary KNot meta0 (Fuzzy meta0 (W [120]%N) (mkDec false 2 0) false);
+     Range meta0 (W [49]%N) (Unary KProhibit meta0 (W [50]%N)) true false;
+     Boost meta0 (ORange KFrom meta0 (W [121]%N) true) (mkDec false 3 0) false;
+     Unary KPlus meta0 (Grp KGroup meta0 (Op KUnknown meta0 [W [112]%N; W [113]%N]))].
+Example C13_slots_nonvacuous :
+  option_map (print true) (aht ex_slots) = Some [102;58;40;97;32;79;82;32;34;98;32;99;34;41;32;65;78;68;32;78;79;84;32;120;126;50;32;65;78;68;32;91;49;32;84;79;32;45;50;125;32;65;78;68;32;62;61;121;94;51;32;65;78;68;32;43;40;112;32;113;41]%N /\
+  designated tail_needed_in ex_slots [0] /\ ~ designated head_needed_in ex_slots [0] /\
+  designated head_needed_in ex_slots [1; 0] /\ ~ designated tail_needed_in ex_slots [1; 0] /\
+  ~ designated head_needed_in ex_slots [0; 0] /\ ~ designated head_needed_in ex_slots [4; 0; 0; 1].
+Proof.
+  split; [vm_compute; reflexivity|].
+  split; [exists [], 0, ex_slots; repeat split|].
+  split; [rewrite (designated_snoc _ ex_slots [] 0 ex_slots eq_refl); vm_compute; discriminate|].
+  split; [exists [1], 0; eexists; repeat split|].
+  split; [rewrite (designated_snoc _ ex_slots [1] 0 _ eq_refl); vm_compute; discriminate|].
+  split; [rewrite (designated_snoc _ ex_slots [0] 0 _ eq_refl); vm_compute; discriminate|].
+  rewrite (designated_snoc _ ex_slots [4; 0; 0] 1 _ eq_refl); vm_compute; discriminate.
+Qed.
+
 Print Assumptions C13_fails_exactly.
+Print Assumptions C13_fills_where_needed.
 Print Assumptions C13_equal_to_input.
 Print Assumptions C13_only_fills_empty.
 Print Assumptions C13_idempotent.
